@@ -70,7 +70,7 @@ class TlcResult:
 
 
 def run_tlc(module, cfg, label, workers=1, timeout=900, env=None, extra=None, xmx=None, deque=False,
-            coverage=False):
+            coverage=False, jvm=None):
     """Run TLC on SPEC/<module>.tla with SPEC/<cfg>; returns TlcResult."""
     meta = os.path.join(BUILD, 'tlc', label)
     shutil.rmtree(meta, ignore_errors=True)
@@ -80,6 +80,8 @@ def run_tlc(module, cfg, label, workers=1, timeout=900, env=None, extra=None, xm
     cmd = ['java', '-XX:+UseSerialGC', '-XX:TieredStopAtLevel=4'] if workers == 1 else ['java', '-XX:+UseParallelGC', '-XX:ParallelGCThreads=4']
     if xmx:
         cmd.append('-Xmx' + xmx)
+    if jvm:
+        cmd += list(jvm)
     if deque:
         cmd.append('-Dtlc2.tool.queue.IStateQueue=StateDeque')
     cmd += ['-cp', JAR, 'tlc2.TLC', '-workers', str(workers), '-metadir', meta, '-noGenerateSpecTE',
@@ -169,12 +171,12 @@ class Check:
 
     # ---------------------------------------------------------------- model checking
     def mc(self, module, cfg, label=None, workers=None, timeout=1200, must_hold=True, xmx=None,
-           coverage=None, env=None, extra=None):
+           coverage=None, env=None, extra=None, jvm=None):
         label = '%s_%s' % (self.tag, label or cfg.replace('.cfg', ''))
         workers = workers or NCPU
         coverage = self.thorough if coverage is None else coverage
         r = run_tlc(module, cfg, label, workers=workers, timeout=timeout, xmx=xmx, coverage=coverage,
-                    env=env, extra=extra)
+                    env=env, extra=extra, jvm=jvm)
         self.details['mc_runs'].append({'module': module, 'cfg': cfg, 'states_generated': r.generated,
                                         'distinct_states': r.distinct, 'depth': r.depth,
                                         'wall_s': round(r.wall, 1), 'violated': r.violated,
@@ -196,7 +198,7 @@ class Check:
 
     # ---------------------------------------------------------------- trace validation
     def validate_traces(self, module, cfg, files, timeout=900, par=NCPU, deque=False, env=None,
-                        sig_prefix='trace'):
+                        sig_prefix='trace', jvm=None):
         """Validate ndjson traces (impl -> spec).  One TLC process per file, `par` at a time.
         A rejected trace is re-run once; only a repeated rejection counts."""
         def one(f):
@@ -204,7 +206,7 @@ class Check:
             e = {'TRACE': f}
             if env:
                 e.update(env)
-            return f, run_tlc(module, cfg, label, workers=1, timeout=timeout, env=e, deque=deque)
+            return f, run_tlc(module, cfg, label, workers=1, timeout=timeout, env=e, deque=deque, jvm=jvm)
         with cf.ThreadPoolExecutor(par) as ex:
             results = list(ex.map(one, files))
         ok = True
